@@ -292,7 +292,7 @@ def merge_and_report(cid, tier, spec, frags, failed_shards, workdir, seed, build
         os.makedirs(rdir, exist_ok=True)
         keep = os.path.join(rdir, "crash-shard-%d.log" % i)
         with open(keep, "w") as f:
-            f.write(txt[-200000:])
+            f.write(txt if len(txt) <= 260000 else txt[:60000] + "\n...[cut]...\n" + txt[-200000:])
         if ("panic:" in txt or "fatal error:" in txt or "SIGSEGV" in txt) and "VERIF-HARNESS-BUG" not in txt:
             lines.append("VIOLATION property=%s replay=%s" % (cid, keep))
             lines.append("  harness process crashed (rc=%s): the code under test panicked or faulted; see log" % code)
